@@ -933,6 +933,31 @@ Proof.
   - f_equal. eapply select_from_err. exact S.
 Qed.
 
+(* a call site, in whatever template it stands and whatever that template defines itself, runs
+   the table's entry when the table has the name *)
+Lemma lookup_component_table : forall (t : ctable A) local n a p,
+  ct_get t n = Some (a, p) -> lookup_component t local n = ROk a.
+Proof. intros t local n a p H. unfold lookup_component. rewrite H. reflexivity. Qed.
+
+Lemma lookup_component_fallback : forall (t : ctable A) local n,
+  ct_get t n = None ->
+  lookup_component t local n = match local_get local n with Some a => ROk a | None => RErr ErrPanic end.
+Proof. intros t local n H. unfold lookup_component. rewrite H. reflexivity. Qed.
+
+(* ... hence the unique best-priority definition among those offered, independently of the
+   calling template's own (possibly lower-priority) definition of the same name *)
+Lemma call_site_runs_best_priority : forall (l : list entry) (t : ctable A) local n p0 a0,
+  select_components l = ROk t -> In (n, p0, a0) l ->
+  exists a p, lookup_component t local n = ROk a /\ In (n, p, a) l /\
+              (forall p' a', In (n, p', a') l -> (p <= p')%nat) /\ (forall a', In (n, p, a') l -> a' = a).
+Proof.
+  intros l t local n p0 a0 H Hin. assert (I := priority_selection_ok l t H n).
+  destruct (ct_get t n) as [[a p]|] eqn:G.
+  - destruct I as [H1 [H2 [H3 _]]]. exists a, p. split; [eapply lookup_component_table; exact G|].
+    split; [exact H1|]. split; [exact H2|exact H3].
+  - exfalso. apply (I _ _ Hin).
+Qed.
+
 End Prio.
 
 (* Whether a set with two equal-priority definitions SHADOWED by a better one is rejected depends
